@@ -45,7 +45,8 @@ class KeyJoins(FnContract):
         for n1, n2 in ((1, 1), (2, 2), (3, 3), (1, 2), (1, 3), (2, 1), (3, 1)):
             out.append(dict(n1=n1, n2=n2, others='one'))
         out += [dict(n1=1, n2=1, others='first-recursing'), dict(n1=2, n2=2, others='first-incompatible'), dict(n1=1, n2=1, others='none'),
-                dict(n1=1, n2=1, others='all-incompatible'), dict(n1=2, n2=3, others='one')]
+                dict(n1=1, n2=1, others='all-incompatible'), dict(n1=2, n2=3, others='one'),
+                dict(n1=1, n2=1, others='other-error'), dict(n1=2, n2=2, others='incompatible-then-other-error')]
         return out
 
     def inputs(self, cfg, P):
@@ -61,6 +62,8 @@ class KeyJoins(FnContract):
                 events.append(('get_mask', label, data.fields['_recursing'], st))
                 if behaviour == 'incompatible':
                     raise PyRaise(ExcVal('IncompatibleAttribute'))
+                if behaviour == 'error':
+                    raise PyRaise(ExcVal('ClientException'))       # any other failure of evaluating the selection there
                 return arr(('selected', label))
 
             def get_data(I, self_, cid, view=None):
@@ -77,7 +80,7 @@ class KeyJoins(FnContract):
         c2 = tuple(PObj('ComponentID', fields={'name': 'r%d' % i}) for i in range(cfg['n2']))
         kj = {}
         plan = {'one': ['ok'], 'first-recursing': ['recursing', 'ok'], 'first-incompatible': ['incompatible', 'ok'], 'none': [],
-                'all-incompatible': ['incompatible', 'incompatible']}[cfg['others']]
+                'all-incompatible': ['incompatible', 'incompatible'], 'other-error': ['error'], 'incompatible-then-other-error': ['incompatible', 'error']}[cfg['others']]
         others = []
         for i, b in enumerate(plan):
             o = mk_other('R%d' % i, b)
@@ -107,6 +110,7 @@ class KeyJoins(FnContract):
                 'getattr': Builtin('getattr', lambda I, o, n, d=None: o.fields.get(n, d)), 'bool': PType('bool')}
 
     raises = {'IncompatibleAttribute': lambda cfg, st: cfg['others'] in ('none', 'all-incompatible'),
+              'ClientException': lambda cfg, st: 'other-error' in cfg['others'],
               'Exception': lambda cfg, st: cfg['n1'] > 1 and cfg['n2'] > 1 and cfg['n1'] != cfg['n2']}
 
     def finish(self, cfg, st, P, outcome):
